@@ -1371,3 +1371,20 @@ package otto
 //@   safety C02 C09
 //@   requires wfCall(call) && argsOK(call.ArgumentList) && call.runtime != nil
 //@   stable call.ArgumentList
+
+// indexOf / lastIndexOf report positions in UTF-16 code units: the byte offset of the
+// match is converted by counting the code units of the text before it.
+//@ func utf16Length
+//@   logical
+//@ func indexRune
+//@   props C09
+//@   safety C02 C09
+//@   calls utf16Length(_) as u when strings.Index(s, substr) >= 0
+//@   ensures strings.Index(s, substr) >= 0 ==> result == u
+//@   ensures strings.Index(s, substr) < 0 ==> result == -1
+//@ func lastIndexRune
+//@   props C09
+//@   safety C02 C09
+//@   calls utf16Length(_) as u when strings.LastIndex(s, substr) >= 0
+//@   ensures strings.LastIndex(s, substr) >= 0 ==> result == u
+//@   ensures strings.LastIndex(s, substr) < 0 ==> result == -1
